@@ -1102,6 +1102,9 @@ fn cli_args(case: &Case) -> Vec<std::ffi::OsString> {
 }
 
 pub fn check(case: &Case) -> Verdict {
+    if crate::gen::starts_with_bom(&case.input.0) {
+        return Verdict::Reject("input starts with a byte-order mark (transcoding is C17's subject)");
+    }
     if case.cfg.term == Term::Nul {
         return Verdict::Reject("NUL-terminated lines are not part of this check");
     }
